@@ -345,6 +345,18 @@ fn c18_configs(tier: Tier) -> Vec<uring::UCfg> {
         odirect: false,
         letters: vec![A_WRITE0, A_WRITE3, A_WRITE_HOLE, A_READ0, A_FSYNC, A_SUBMIT0, A_ADV_FULL, A_DRAIN0, A_DRAIN_ONE0, A_CRASH],
     });
+    // rings opened and dropped while a younger ring is in use
+    v.push(UCfg {
+        name: "two-rings-churn".into(),
+        rings: 2,
+        depth_ring: 2,
+        latency_us: 1000,
+        depth: tier.pick(7, 9),
+        page_cache: false,
+        capacity: None,
+        odirect: false,
+        letters: vec![A_WRITE0, A_R1_WRITE1, A_R1_READ0, A_SUBMIT0, A_SUBMIT1, A_ADV_FULL, A_DRAIN0, A_DRAIN1, A_CHURN0],
+    });
     // O_DIRECT with a page cache configured: every read pays the full latency, hit or not
     v.push(UCfg {
         name: "odirect-with-page-cache".into(),
